@@ -150,7 +150,10 @@ M_C07(pre, a, obs, post) ==
                          \/ (u = actor /\ "O" \in M(gPre.given) /\ M(gPre.given) \subseteq M(gPost.given))
                          \/ strippedOwner,
          "GivenChangedOnlyByAuthorised")
-      \cup If(wantChanged => u = actor \/ strippedOwner, "WantChangedOnlyBySelf")
+      \* (Reload is the harness composite "every attached session leaves and subscribes again": those are the attached users' own
+      \*  requests; a {sub} of a user whose want lacks J un-self-bans, i.e. changes that user's own want)
+      \cup If(wantChanged => u = actor \/ strippedOwner
+                             \/ (a.a = "Reload" /\ a.t = t /\ \E x \in AttOf(pre.cache[t]) : x.u = u), "WantChangedOnlyBySelf")
       \* sharers can only invite with default access; explicit grants need A or O
       \cup If(newRow /\ u # actor => IsSharer(actorMode), "InviteNeedsSharer")
       \cup If(newRow /\ u # actor /\ ~IsAdmin(actorMode) => M(gPost.given) = M(pre.topics[t].auth) \cup {"J"}, "SharerInvitesWithDefaultOnly")
